@@ -278,6 +278,59 @@ fn c14_bbn_write_fails_large(dir: &str) -> bool {
     r.is_err() && db.is_poisoned()
 }
 
+/// C03 (helper, child process): the very first commit of a store with the rollback log enabled dies
+/// between the rollback-log append and the meta swap.
+fn c03_crash_first_commit(dir: &str) -> bool {
+    let _ = std::fs::remove_dir_all(dir);
+    let mut o = opts(dir, true);
+    o.panic_on_sync(PanicOnSyncMode::PostWal);
+    let db: Db = Nomt::open(o).unwrap();
+    commit(&db, vec![(key(1), Some(vec![1]))]); // panics inside
+    true
+}
+
+/// C03: after that crash the directory reopens in the old (empty) state and accepts further commits,
+/// also after one more reopen.
+fn c03_first_commit_crash(dir: &str) -> bool {
+    let st = std::process::Command::new(std::env::current_exe().unwrap()).args(["c03_crash_first_commit", dir])
+        .stdout(std::process::Stdio::null()).stderr(std::process::Stdio::null()).status().unwrap();
+    let crashed = !st.success();
+    let mut ok = true;
+    let mut msgs = vec![];
+    for round in 0..2u8 {
+        match Nomt::<Blake3Hasher>::open(opts(dir, true)) {
+            Ok(db) => {
+                if round == 0 && db.read(key(1)).unwrap().is_some() {
+                    msgs.push("the interrupted commit is visible".to_string());
+                    ok = false;
+                }
+                let s = db.begin_session(SessionParams::default());
+                let r = s.finish(vec![(key(10 + round), KeyReadWrite::Write(Some(vec![round])))]).unwrap().commit(&db);
+                if let Err(e) = r {
+                    msgs.push(format!("commit #{} on the reopened store failed: {}", round, e));
+                    ok = false;
+                }
+            }
+            Err(e) => {
+                msgs.push(format!("reopen #{} failed: {}", round, e));
+                ok = false;
+            }
+        }
+    }
+    println!("child crashed before the meta swap: {}; problems: {:?}", crashed, msgs);
+    crashed && ok
+}
+
+/// C04 (driver, run under strace): create a database without hash-table preallocation.
+fn c04_create_noprealloc(dir: &str) -> bool {
+    let _ = std::fs::remove_dir_all(dir);
+    let mut o = opts(dir, true);
+    o.preallocate_ht(false);
+    let db: Db = Nomt::open(o).unwrap();
+    commit(&db, vec![(key(1), Some(vec![1]))]);
+    true
+}
+
 /// C14 (driver): build the database that `c14_commit_for_injection` commits to.
 fn c14_prepare(dir: &str) -> bool {
     let _ = std::fs::remove_dir_all(dir);
@@ -434,6 +487,9 @@ fn main() {
         "c20_fresh_and_reopen" => c20_fresh_and_reopen(dir),
         "c20_try_open" => c20_try_open(dir),
         "c14_prepare" => c14_prepare(dir),
+        "c03_crash_first_commit" => c03_crash_first_commit(dir),
+        "c03_first_commit_crash" => c03_first_commit_crash(dir),
+        "c04_create_noprealloc" => c04_create_noprealloc(dir),
         "c14_bbn_write_fails_large" => c14_bbn_write_fails_large(dir),
         "c12_handback_session" => c12_handback_session(dir),
         "c04_rollover" => c04_rollover(dir),
